@@ -5,7 +5,6 @@ import (
 	"encoding/hex"
 	"encoding/json"
 	"fmt"
-	"reflect"
 	"sort"
 	"sync"
 
@@ -287,39 +286,7 @@ func init() {
 				shards = append(shards, engine.Shard{Name: "C20/reported-config/" + kind, Run: func(st *engine.Stats, col *engine.Collector) {
 					sm, bg := acceptedConfigs(kind)
 					r := &cfgRun{prop: "C20", st: st, col: col}
-					check := func(pc PCfg, inputs InputSet) {
-						r.cur = Fields{Kind: kind, I: map[string]int{}}
-						r.doc = pc.JSON
-						defer func() {
-							if x := recover(); x != nil {
-								// a parser that panics is C16's business, not a statement about configurations
-								st.Add("panics_recovered_and_left_to_C16", 1)
-							}
-						}()
-						c := pc.Config()
-						p, err := c.NewParser()
-						if err != nil {
-							r.fail("reported-config|rejected", "defaults-completed accepted configuration %s is rejected: %v", pc.JSON, err)
-							return
-						}
-						rep := p.ParserConfig()
-						if !reflect.DeepEqual(rep, c) {
-							r.fail("reported-config|differs", "ParserConfig() = %+v for a parser made from the defaults-completed %+v", rep, c)
-						}
-						if p.BufferConfig() != c.BufConfig() {
-							r.fail("reported-config|buffer-differs", "BufferConfig() = %+v, configuration has %+v", p.BufferConfig(), c.BufConfig())
-						}
-						inputs.Each(func(in []byte) {
-							a, errA := parseAll(c, in)
-							b, errB := parseAll(rep, in)
-							st.Execs += 2
-							st.Transitions += int64(len(a) + len(b))
-							if (errA == nil) != (errB == nil) || streamKey(a) != streamKey(b) {
-								r.fail("reported-config|behaves-differently", "parser made from ParserConfity() of %s emits different blocks on %q", pc.JSON, in)
-							}
-						})
-						st.Add("configs_compared", 1)
-					}
+					check := func(pc PCfg, inputs InputSet) { checkReported(r, pc, inputs) }
 					inSmall, inBig := Binary(6), c16Inputs(tier, false, false)
 					if tier == "thorough" {
 						inSmall = Binary(8)
